@@ -119,6 +119,16 @@ CLAIMS = {
         "small chains over a two-value hash alphabet.",
    note="quick: all single deviations + 300 sampled double deviations, chain pairs with <=2 links; thorough: all 2.6e3 behaviours, <=3 links. Async extending and KSI_extendSignature are C04's. Defect F-C08-1 fixed.",
    technique="TLC model checking of the protocol + replay of all TLC behaviours into the real extending calls; declarative compatibility relation vs libksi on all small chain pairs"),
+ "C06": dict(level="model_checking", design_ref="DESIGN.md 4/C06",
+   text="Pdu.tla models a serialized PDU as regions (outer header, header, payload, MAC TLV header, MAC algorithm octet, digest), MacInput per PDU version, an "
+        "injective uninterpreted Mac and the receiver's Accept; TLC proves (as ASSUMEs over the finite domain) that for v2 every single-region flip, another key, "
+        "another algorithm, the other version, a missing MAC or header are rejected, and lists the v1 regions outside the MAC. MC_Pdu exports every (response kind x "
+        "transport x configured algorithm x deviation) case with the verdict Delivered; each is realised on the wire with replies from the independent toolkit -- a flip "
+        "deviation as every single-bit flip in that region -- and fed to the real blocking client (sign, extend, aggregator and extender config), async service and HA "
+        "service on scripted sockets. Requests written by every transport for six login/key pairs (keys below, at and above the HMAC block size) and several algorithms "
+        "are parsed independently and their MAC recomputed; libksi's HMAC construction is compared with RFC 2104 (Python hmac) for every algorithm of the build.",
+   note="quick: every bit of every region of a signing reply on the blocking client, every 3rd payload bit for the other kinds, every 5th payload bit on async/HA; thorough: every bit everywhere. HTTP transport not bound; v1 only as 'other version rejected'.",
+   technique="TLC-checked PDU authentication model + exhaustive per-bit replay of its deviation cases into the real clients; independent recomputation of request MACs"),
 }
 for e in ENGINES:
     e["serves_properties"] = sorted(CLAIMS)
